@@ -376,3 +376,95 @@ pub fn c12_cli_cases(rng: &mut Rng, tier: &str, out: &mut Out) {
         });
     }
 }
+
+/// C16 with an output directory that already contains symbolic links to the outside
+/// (`out/link -> ../sibling`, `out/deep/l2 -> ../../sibling/keepdir`, `out/flink -> ../outside.txt`):
+/// members routed through the links (into existing and not-yet-existing directories) must not
+/// create, truncate or append to any FILE outside the output directory. (Directories that
+/// `create_dir_all` makes through a link before the canonical check are not files; they are
+/// reported in the class but tolerated.)  Oracle only.
+pub fn c16_symlink_cases(rng: &mut Rng, tier: &str, out: &mut Out) {
+    let work = std::env::current_dir().unwrap();
+    let targets: Vec<&str> = vec![
+        "link/x", "link/keep.txt", "link/sub/escaped.txt", "link/sub/deeper/e2.txt", "deep/l2/y", "deep/l2/new/z", "flink",
+        "link/../sibling/keep.txt", "./link/sub/a", "link//sub2//b", "inside/ok.txt", "link", "deep/l2",
+    ];
+    let n = if tier == "thorough" { 120 } else { 30 };
+    for k in 0..n {
+        let cnt = rng.range(1, 4) as usize;
+        let mut names: Vec<Vec<u8>> = Vec::new();
+        while names.len() < cnt {
+            let t = rng.pick(&targets).as_bytes().to_vec();
+            if !names.contains(&t) {
+                names.push(t);
+            }
+        }
+        names.push(b"zz_benign".to_vec());
+        names.sort();
+        let order: Vec<usize> = (0..names.len()).collect();
+        let Ok(archive) = build_named_archive(&names, &order) else { continue };
+        let sb = work.join(format!("sl{k}"));
+        let _ = fs::remove_dir_all(&sb);
+        fs::create_dir_all(sb.join("sibling/keepdir")).unwrap();
+        fs::write(sb.join("sibling/keep.txt"), b"keep").unwrap();
+        fs::write(sb.join("outside.txt"), b"outside").unwrap();
+        fs::create_dir_all(sb.join("out/deep")).unwrap();
+        std::os::unix::fs::symlink("../sibling", sb.join("out/link")).unwrap();
+        std::os::unix::fs::symlink("../../sibling/keepdir", sb.join("out/deep/l2")).unwrap();
+        std::os::unix::fs::symlink("../outside.txt", sb.join("out/flink")).unwrap();
+        fs::write(sb.join("a.mla"), &archive).unwrap();
+        let before = snapshot(&sb);
+        let form = (k % 3) as u64;
+        let mut cmd = Command::new(mlar_bin());
+        cmd.current_dir(&sb).arg("extract").arg("-i").arg("a.mla").arg("-o").arg("out");
+        let listed = rng.below(names.len() as u64) as usize;
+        match form {
+            1 => {
+                cmd.arg("-g").arg("*");
+            }
+            2 => {
+                cmd.arg("--").arg(String::from_utf8_lossy(&names[listed]).into_owned());
+            }
+            _ => {}
+        }
+        let o = cmd.output().expect("run mlar");
+        let after = snapshot(&sb);
+        let mut bad: Vec<String> = Vec::new();
+        let mut dirs_outside = 0usize;
+        for (p, v) in &after {
+            let under_out = p.starts_with(b"out/") || p == b"out";
+            if under_out || before.get(p) == Some(v) {
+                continue;
+            }
+            if v.0 == 1 {
+                dirs_outside += 1;
+            } else {
+                bad.push(format!("{} {}", String::from_utf8_lossy(p), if before.contains_key(p) { "modified" } else { "created" }));
+            }
+        }
+        for (p, v) in &before {
+            if !after.contains_key(p) && v.0 != 1 && !(p.starts_with(b"out/")) {
+                bad.push(format!("{} removed", String::from_utf8_lossy(p)));
+            }
+        }
+        // the symlinks themselves must still be symlinks (not replaced / written through)
+        for l in ["out/link", "out/deep/l2", "out/flink"] {
+            if after.get(l.as_bytes()).map(|v| v.0) != Some(2) && before.get(l.as_bytes()).map(|v| v.0) == Some(2) {
+                // replaced by a regular file inside out/: allowed (it is beneath the output directory)
+            }
+        }
+        let _ = fs::remove_dir_all(&sb);
+        let msg = if bad.is_empty() { None } else { Some(format!("with symbolic links inside the output directory, extraction wrote outside it: {}", bad.join(", "))) };
+        out.case(&Case {
+            id: format!("c16-symlink-{k}"),
+            model_fn: "",
+            args: vec![],
+            imp: json!([]),
+            oracle_ok: msg.is_none(),
+            oracle_msg: msg.unwrap_or_default(),
+            class: format!("symlinks form={} members={} status_ok={} dirs_created_outside={}", form, names.len(), o.status.success(), dirs_outside.min(3)),
+            nontrivial: true,
+            meta: json!({"names": names.iter().map(|n| String::from_utf8_lossy(n).into_owned()).collect::<Vec<_>>(), "form": form}),
+        });
+    }
+}
